@@ -8,6 +8,7 @@ import (
 	"fmt"
 	"go/constant"
 	"go/token"
+	"go/types"
 	"sort"
 	"strings"
 
@@ -599,39 +600,87 @@ func checkIDMaps(c *Check) {
 		if !ok {
 			continue
 		}
-		ret := errReturned(v)
+		ret, _ := errPropagated(p, v)
 		c.Cond(ret, "O9/id-maps", "forkexec."+fn.Name()+":err"+order[i], p.Pos(ci.Pos()), "error of writing "+order[i]+" is returned", "error of writing "+order[i]+" is not returned")
 	}
-	c.Expect("O9/id-maps", 4)
-}
-
-// errReturned: the error value v is tested against nil and returned on the non-nil edge.
-func errReturned(v ssa.Value) bool {
-	refs := v.Referrers()
-	if refs == nil {
-		return false
-	}
-	for _, ref := range *refs {
-		if b, ok := ref.(*ssa.BinOp); ok && b.Op == token.NEQ && isNilConst(b.Y) {
-			if br := b.Referrers(); br != nil {
-				for _, u := range *br {
-					if iff, ok := u.(*ssa.If); ok {
-						tb := iff.Block().Succs[0]
-						for _, in := range tb.Instrs {
-							if ret, ok := in.(*ssa.Return); ok {
-								for _, rv := range ret.Results {
-									if rv == v {
-										return true
-									}
-								}
-							}
-						}
-					}
-				}
+	// a failed id-map write is relayed to the waiting child as a nonzero word: in the function that calls the
+	// writer, on every path on which the writer returned an error, the word handed to the next write(2) on the
+	// sync socket is not the constant 0 ("go ahead")
+	for _, caller := range p.PkgFuncs("pkg/forkexec") {
+		var wcall *ssa.Call
+		for _, ci := range callInstrs(caller) {
+			if _, callee := calleeOf(ci); callee == fn {
+				wcall, _ = ci.(*ssa.Call)
 			}
 		}
+		if wcall == nil {
+			continue
+		}
+		relayed, silent, sites := 0, "", 0
+		w := &walker{fn: caller}
+		done := map[*wstate]bool{}
+		w.Seed = func(w *walker, st *wstate, v ssa.Value) *absVal {
+			if v == ssa.Value(wcall) {
+				return &absVal{k: avPtr, key: "X:err"}
+			}
+			call, ok := v.(*ssa.Call)
+			if !ok || done[st] {
+				return nil
+			}
+			if _, failed := st.vals[wcall]; !failed {
+				return nil
+			}
+			n, _ := calleeOf(call)
+			if !strings.HasSuffix(n, "syscall.RawSyscall") && !strings.HasSuffix(n, "syscall.Syscall") {
+				return nil
+			}
+			if nr, isC := constInt(call.Call.Args[0]); !isC || nr != p.Sys("SYS_WRITE") {
+				return nil
+			}
+			// the buffer: a local cell
+			var cell *ssa.Alloc
+			var find func(v ssa.Value, d int)
+			find = func(v ssa.Value, d int) {
+				if d > 6 || cell != nil {
+					return
+				}
+				switch x := v.(type) {
+				case *ssa.Alloc:
+					cell = x
+				case *ssa.Convert:
+					find(x.X, d+1)
+				case *ssa.ChangeType:
+					find(x.X, d+1)
+				}
+			}
+			find(call.Call.Args[2], 0)
+			if cell == nil {
+				return nil
+			}
+			done[st] = true
+			sites++
+			word := w.load(st, w.eval(st, cell).key, cell.Type().(*types.Pointer).Elem())
+			if word.k == avConst {
+				if z, isInt := constant.Int64Val(word.c); isInt && z == 0 {
+					silent = p.Pos(call.Pos())
+					return nil
+				}
+			}
+			relayed++
+			return nil
+		}
+		w.Run()
+		key := "forkexec." + caller.Name() + ":failure-relayed"
+		switch {
+		case sites == 0:
+			c.Fail("O9/id-maps", key, p.Pos(wcall.Pos()), "after a failed id-map write nothing is written to the waiting child")
+		case silent != "":
+			c.Fail("O9/id-maps", key, silent, "on some path a failed id-map write is followed by writing the constant 0 (go ahead) to the child: the child proceeds in a user namespace without its uid/gid maps and Start reports success")
+		default:
+			c.OK("O9/id-maps", key, p.Pos(wcall.Pos()), fmt.Sprintf("a failed id-map write reaches the child as a nonzero word on all %d path(s)", relayed))
+		}
 	}
-	return false
+	c.Expect("O9/id-maps", 5)
 }
 
 // checkRunnerLiterals: the three callers build forkexec.Runner with the security fields attributed to them.
